@@ -357,9 +357,10 @@ pub fn secret(r: &mut Rng) -> Vec<u8> {
     }
     let n = match r.below(16) {
         0..=10 => *r.pick(&L),
-        // around every power of two from 2^6 to 2^12, where fixed-size scratch buffers end
+        // around every power of two from 2^6 to 2^16, where fixed-size scratch buffers end
         11 => {
-            let k = r.range(6, 12) as u32;
+            // (2^13..2^16 more rarely: every cipher block hashes the whole secret)
+            let k = if r.chance(1, 6) { r.range(13, 16) as u32 } else { r.range(6, 12) as u32 };
             ((1usize << k) + 8).saturating_sub(r.range(0, 40) as usize)
         }
         12 => r.range(1000, 1030) as usize,
